@@ -109,8 +109,17 @@ func (t *T) Note(format string, a ...interface{}) {
 func (t *T) Fault(kind string)  { t.Out.Faults[kind]++ }
 func (t *T) Probe(name string)  { t.Out.Probes[name]++ }
 func (t *T) ProbeN(name string, n int64) { t.Out.Probes[name] += n }
-func (t *T) State(sig string)   { t.Out.States[HashString(sig)] = struct{}{} }
-func (t *T) State64(sig uint64) { t.Out.States[sig] = struct{}{} }
+func (t *T) State(sig string)   { t.State64(HashString(sig)) }
+func (t *T) State64(sig uint64) { t.Out.States[sig&^SpaceMask] = struct{}{} }
+
+// SpaceMask: the top three bits of a state signature name a sub-space (0-7) so
+// that coverage of small finite spaces can be reported separately.
+const SpaceMask = uint64(7) << 61
+
+// StateIn records a state signature in sub-space 1..7.
+func (t *T) StateIn(space int, sig uint64) {
+	t.Out.States[(sig&^SpaceMask)|uint64(space&7)<<61] = struct{}{}
+}
 func (t *T) Op()                { t.Out.Ops++ }
 
 // Violate records a failed oracle. It does not stop the run; callers return
@@ -131,6 +140,21 @@ func (t *T) Violate(oracle, api, detail, format string, a ...interface{}) {
 	}
 }
 
+// ActiveFindings is the known-findings list of this process (set by main);
+// it lets a run keep exploring after it met a listed finding.
+var ActiveFindings *FindingsFile
+
+// Unlisted is the number of recorded violations that are not listed findings.
+func (t *T) Unlisted() int {
+	n := 0
+	for _, v := range t.Out.Violations {
+		if ActiveFindings.Known(v.Class) == nil {
+			n++
+		}
+	}
+	return n
+}
+
 // Failed reports whether any violation has been recorded.
 func (t *T) Failed() bool { return len(t.Out.Violations) > 0 }
 
@@ -142,6 +166,36 @@ type PanicInfo struct {
 	OrbFunc  string // innermost frame inside github.com/paulmach/orb (not verifrt)
 	OrbFile  string
 	Stack    string
+}
+
+// ClassDetail names where a panic belongs: the innermost frame when it is orb
+// code; the innermost orb frame when the panic surfaced in the standard
+// library below it; "dep:<package>" when it surfaced in a third-party
+// dependency (so that a dependency's defect is not confused with orb's).
+func (pi *PanicInfo) ClassDetail() string {
+	top := pi.TopFunc
+	if strings.HasPrefix(top, "github.com/paulmach/orb") {
+		return top
+	}
+	first := top
+	if i := strings.Index(first, "/"); i >= 0 {
+		first = first[:i]
+	}
+	if !strings.Contains(first, ".") || strings.HasPrefix(top, "verif/") {
+		// standard library (or harness) frame on top
+		if pi.OrbFunc != "" {
+			return pi.OrbFunc
+		}
+		return top
+	}
+	// third-party: package path = up to the first dot after the last slash
+	pkg := top
+	if i := strings.LastIndex(pkg, "/"); i >= 0 {
+		if j := strings.Index(pkg[i:], "."); j >= 0 {
+			pkg = pkg[:i+j]
+		}
+	}
+	return "dep:" + pkg
 }
 
 // Catch runs f and returns a description of the panic it raised, or nil.
@@ -231,7 +285,7 @@ func (t *T) Guard(api string, f func()) bool {
 	if pi == nil {
 		return false
 	}
-	detail := pi.TopFunc
+	detail := pi.ClassDetail()
 	t.Violate("no-panic", api, detail, "panic: %s\nat %s (orb frame: %s %s)\n%s", pi.Value, pi.TopFile, pi.OrbFunc, pi.OrbFile, pi.Stack)
 	return true
 }
